@@ -208,7 +208,7 @@ func vNewRunner(sc *vScenario) (*vRunner, error) {
 		vms: map[cloud.InstanceID]*vVMInfo{}, ctrs: map[string]*vCtrTrack{},
 		decisions: map[string]*vDecision{}, inherited: map[string]map[vProcRef]bool{},
 		heldNow: map[cloud.InstanceID]bool{},
-		inflight: map[string]int{}, inflightDec: map[string]*vDecision{}, seenDuringStart: map[string]bool{}, forceList: map[string]bool{},
+		inflight: map[string]int{}, inflightDec: map[string]*vDecision{},
 		rng:     rand.New(rand.NewSource(sc.Seed ^ 0x5eed)),
 		deadGen: -1, curGen: -1,
 	}
@@ -278,7 +278,6 @@ func (e *vExecutor) Execute(env map[string]string, cmd string, stdin io.Reader) 
 			if m.inflight[key]--; m.inflight[key] <= 0 {
 				delete(m.inflight, key)
 				delete(m.inflightDec, key)
-				delete(m.seenDuringStart, key)
 			}
 			m.mu.Unlock()
 		}()
